@@ -172,3 +172,27 @@ def random_graph(rng, n: int, density: float = 0.35) -> dict[tuple[int, int], st
 
 def edges_key(edges: dict[tuple[int, int], str]) -> str:
     return ";".join(f"{i}>{j}:{k}" for (i, j), k in sorted(edges.items()))
+
+
+def wide_doc(shared: str = "audit_info", nrecords: int = 24, refs_each: int = 8) -> tuple[dict, dict]:
+    """A flat, acyclic document that is merely LARGE: one shared schema referred to nrecords x refs_each times (a few hundred
+    re-encounters of a finished schema), then more schemas. Returns (document, expectation name -> {key: (kind, required, target)})."""
+    ref = {"$ref": f"#/components/schemas/{shared}"}
+    schemas: dict[str, Any] = {shared: {"type": "object", "required": ["who"], "properties": {"who": {"type": "string"}, "rev": {"type": "integer"}}}}
+    resolved: dict[str, Any] = {shared: {"who": ("string", True, None), "rev": ("integer", False, None)}}
+    paths: dict[str, Any] = {}
+    for k in range(nrecords):
+        name = f"Record{k:02d}"
+        props: dict[str, Any] = {"id": {"type": "integer"}}
+        exp: dict[str, tuple] = {"id": ("integer", True, None)}
+        for j in range(refs_each):
+            props[f"a{j}"] = ref if j % 2 == 0 else {"type": "array", "items": ref}
+            exp[f"a{j}"] = ("ref", False, shared) if j % 2 == 0 else ("array_of_ref", False, shared)
+        schemas[name] = {"type": "object", "required": ["id"], "properties": props}
+        resolved[name] = exp
+        paths[f"/op{k}/records"] = {"post": {"operationId": f"create_record_{k}", "tags": ["records"], "requestBody": {"required": True, "content": {
+            "application/json": {"schema": {"$ref": f"#/components/schemas/{name}"}}}}, "responses": {"201": {"description": "ok", "content": {
+                "application/json": {"schema": {"$ref": f"#/components/schemas/{name}"}}}}}}}
+    doc = {"openapi": "3.0.3", "info": {"title": "Wide", "version": "1"}, "paths": paths, "components": {"schemas": schemas}}
+    return doc, resolved
+
